@@ -106,6 +106,21 @@ def run(ctx):
                     "if(info->cols>oldcols){TickitRectdamage={.top=0,.left=oldcols,.lines=oldlines,.cols=info->cols-oldcols,};tickit_window_expose(win,&damage);}" in tr)
     resize_restore = "_request_restore(root);" in tr
 
+    # ---- the mock terminal's cursor (src/mockterm.c), as `TermCall.onMock` / `TermCursor.mockResize` transcribe it
+    mk = strip(src("src/mockterm.c"))
+    msc = norm(body_of(mk, "mtd_setctl_int") or "")
+    mga = norm(body_of(mk, "mtd_goto_abs") or "")
+    mrs = norm(body_of(mk, "tickit_mockterm_resize") or "")
+    mnew = norm(body_of(mk, "tickit_mockterm_new") or "")
+    mock_setctl = ("caseTICKIT_TERMCTL_CURSORVIS:mtd->cursorvis=!!value;break;" in msc and
+                   "caseTICKIT_TERMCTL_CURSORBLINK:mtd->cursorblink=!!value;break;" in msc and
+                   "caseTICKIT_TERMCTL_CURSORSHAPE:mtd->cursorshape=value;break;" in msc)
+    mock_bound = "#defineBOUND(var,min,max)\\if(var<(min))var=(min);\\if(var>(max))var=(max)" in norm(mk)
+    mock_goto = ("BOUND(line,0,mtd->lines-1);BOUND(col,0,mtd->cols-1);" in mga and "mtd->line=line;mtd->col=col;" in mga)
+    mock_resize = mrs.endswith("tickit_term_set_size((TickitTerm*)mt,newlines,newcols);BOUND(mtd->line,0,mtd->lines-1);BOUND(mtd->col,0,mtd->cols-1);}")
+    mock_init = all(x in mnew for x in ("mtd->line=-1;", "mtd->col=-1;", "mtd->cursorvis=0;", "mtd->cursorblink=0;", "mtd->cursorshape=0;"))
+    if not (msc and mga and mrs and mnew): info["untranslatable"].append("winfocus:mockterm.c cursor functions")
+
     # ---- repairs of other engines that show in this engine's observations (the rectangles flush hands to the root)
     fl = norm(body_of(w, "tickit_window_flush") or "")
     flush_skips = "if(!root_window->is_visible)continue;" in fl
@@ -126,6 +141,10 @@ def run(ctx):
         b(hidden_root), b(chain_restore), b(focus_events), b(flush_skips), b(flush_clips), b(resize_restore))
     body += "/-- `on_term_resize` resizes the root window and exposes the lines and the columns gained, as the model transcribes -/\n"
     body += "def termResizeAsModelled : Bool := %s\n" % b(resize_shape)
+    body += "/-- src/mockterm.c: `mtd_setctl_int` stores `!!value` for CURSORVIS and CURSORBLINK and the raw value for CURSORSHAPE, each case ending in `break` -/\n"
+    body += "def mockSetctlAsModelled : Bool := %s\n" % b(mock_setctl)
+    body += "/-- src/mockterm.c: `BOUND` is the two-`if` clamp; `mtd_goto_abs` clamps line and column to the screen and stores them; `tickit_mockterm_resize` clamps the stored position last; `tickit_mockterm_new` starts at -1,-1 with the three controls 0 -/\n"
+    body += "def mockCursorAsModelled : Bool := %s\n" % b(mock_bound and mock_goto and mock_resize and mock_init)
     body += "/-- `_do_restore` walks `focused_child` from the root and stops at the first invisible window or missing link -/\n"
     body += "def restoreWalkAsModelled : Bool := %s\n" % b(walk_ok)
     body += "/-- the conjuncts of the condition under which `_do_restore` shows the cursor -/\n"
@@ -135,4 +154,5 @@ def run(ctx):
     info["winfocus"] = {"fixes": {"hiddenRoot": hidden_root, "chainRestore": chain_restore, "focusEvents": focus_events,
                                   "flushSkipsHiddenRoot": flush_skips, "flushClipsDamage": flush_clips,
                                   "resizeRestore": resize_restore},
-                        "fields": len(fields), "walk": walk_ok}
+                        "fields": len(fields), "walk": walk_ok, "termResize": resize_shape,
+                        "mock": {"setctl": mock_setctl, "bound": mock_bound, "goto": mock_goto, "resize": mock_resize, "init": mock_init}}
